@@ -68,6 +68,9 @@ static Args c09_period_decode(Ctx& ctx, Dec& d)
 {
   int fn = (int)d.range(0, 1); int64_t x = dec_raw(d, 46); int mode = (int)d.range(0, 4); uint64_t u = d.u64(); int kb = (int)d.range(1, 27); bool neg = d.flag();
   int64_t T = 2 * ctx.cuts[0].phi; int64_t k;
+  if (mode == 1) { // x next to a reduction boundary (-phi/2, 3phi/2 modulo 2phi) with a huge quotient
+    uint64_t jm = ((uint64_t)1 << (kb < 27 ? kb : 27)) - 1; int64_t j = (int64_t)((u >> 8) & jm); int64_t bnd = (u & 1) ? 3 * ctx.cuts[0].phi / 2 : -(ctx.cuts[0].phi / 2);
+    i128 y = (i128)j * T + bnd + (int64_t)((u >> 40) % 129) - 64; if (neg) y = -y; if (iabs128(y) < ((i128)1 << 46)) x = (int64_t)y; }
   if (mode == 0) k = (int64_t)(u % 9) - 4;
   else { uint64_t m = ((uint64_t)1 << kb) - 1; k = (int64_t)((u & m) | ((uint64_t)1 << (kb - 1))); if (neg) k = -k; }
   // keep |x + k*T| < 2^46 by construction: clamp k into the admissible interval
@@ -142,11 +145,14 @@ static Args c10_rel_decode(Ctx& ctx, Dec& d)
   if (mode >= 2 || kind == 2) { // plant x on / next to a pole: j*phi + pi/2 + dl
     int64_t j = (mode == 3) ? big : (int64_t)(u % 5); i128 y = (i128)j * P + H + (mode == 2 && kind != 2 ? dl : (u >> 50) % 3 == 0 ? dl : 0);
     if (y < ((i128)1 << 62)) { x = (int64_t)y; if (neg) x = -x; } }
+  if (mode == 1) { // residue just below / above a multiple of phi with a huge quotient: where quotient estimates of a reduction go wrong
+    int64_t j = big; i128 y = (i128)j * P + ((u >> 52) & 1 ? -(int64_t)(1 + (u >> 44) % 256) : (int64_t)((u >> 44) % 256));
+    if (y > 0 && y < ((i128)1 << 62)) { x = (int64_t)y; if (neg && kind != 1) x = -x; } }
   if (kind == 1) { if (x < 0) x = -x; k = mode == 0 ? (int64_t)(u % 5) : big; i128 kmax = ((((i128)1 << 62) - 1) - x) / P; if (k > kmax) k = (int64_t)kmax; }
   return { kind, x, k };
 }
 static Reg r_c10_rel({ "C10.rel", "C10", "rc",
-  "x with |x| < 2^62 (bit-length uniform, and planted on / next to the pole set j*phi + pi/2 +- 3 with j up to 43 bits), k >= 0 with x + k*phi < 2^62; oracles (metamorphic, constants read from the library build): tan(-x) == -tan(x); tan(x + k*phi) == tan(x) for x,k >= 0; isnan(tan x) <=> (|x| mod phi) == pi/2 constant (two NaNs count as equal); non-trivial = range reduction executed, k > 0, at or within 64 raw of a pole",
+  "x with |x| < 2^62 (bit-length uniform, planted on / next to the pole set j*phi + pi/2 +- 3 and within 256 raw of a multiple j*phi, with j up to 43 bits), k >= 0 with x + k*phi < 2^62; oracles (metamorphic, constants read from the library build): tan(-x) == -tan(x); tan(x + k*phi) == tan(x) for x,k >= 0; isnan(tan x) <=> (|x| mod phi) == pi/2 constant (two NaNs count as equal); non-trivial = range reduction executed, k > 0, at or within 64 raw of a pole",
   c10_rel_check, 20, c10_rel_decode, nullptr });
 
 // ================================================================ C11
@@ -273,6 +279,8 @@ static Reg r_c12_in({ "C12.in", "C12", "sweep",
   "every raw x in [-65536, 65536] (131,073 values, every run) under both square-root algorithms; oracle: not NaN; asin(x) in [asinl(max(x-2u,-1)) - 4u, asinl(min(x+2u,1)) + 4u]; asin(-x) == -asin(x); asin(x) >= asin(x-1 raw); acos(x) within 1 ulp of pi/2 - asin(x) and of [0, pi]; non-trivial = |x| > 0.6 (square-root branch), |x| > 0.99, or at the 0.6 switch; distinct by construction",
   c12_in_check, 0, nullptr, c12_in_sweep });
 
+static Args c12_inrc_decode(Ctx&, Dec& d) { uint64_t u = d.u64(); int64_t x = (int64_t)(u % 131073) - 65536; if ((u >> 40) % 4 == 0) x = (x < 0 ? -1 : 1) * (39322 + (int64_t)((u >> 20) % 26215)); return { x }; }
+static Reg r_c12_inrc({ "C12.inrc", "C12", "rc", "generated raw x in [-65536, 65536] (one quarter in the square-root branch |x| > 0.6): same oracle as C12.in; exists so that libFuzzer and the constant-evaluation engine can be driven by this domain", c12_in_check, 4, c12_inrc_decode, nullptr });
 static void c12_out_check(Ctx& ctx, const Args& a)
 {
   if (a.size() != 1 || !m_finite128(a[0]) || (a[0] >= -65536 && a[0] <= 65536)) { ctx.skip(); return; }
